@@ -861,4 +861,345 @@ Section Proofs.
       + eapply cinv_step; eauto.
       + eapply hinv_step; eauto.
   Qed.
+
+  (* ================= C02: the reported status ================= *)
+  Notation final_of := (final_of beh e0).
+  Notation calls_of := (calls_of beh e0).
+
+  Lemma flat_map_single {A B} (f : A -> B) l : flat_map (fun x => [f x]) l = map f l.
+  Proof. induction l as [|x l IH]; cbn; [reflexivity|]. rewrite IH. reflexivity. Qed.
+
+  Lemma flat_map_map {A B C} (g : B -> list C) (f : A -> B) l : flat_map g (map f l) = flat_map (fun x => g (f x)) l.
+  Proof. induction l as [|x l IH]; cbn; [reflexivity|]. rewrite IH. reflexivity. Qed.
+
+  Lemma hkeys_map l : hkeys l = map key (heads l).
+  Proof. unfold hkeys, fm. apply flat_map_single. Qed.
+
+  Lemma sent_msgs_heads l : sent_msgs l = flat_map sent_of (heads l).
+  Proof.
+    unfold sent_msgs, heads. induction l as [|t l IH]; cbn [flat_map filter]; [reflexivity|].
+    destruct (is_head t) eqn:E; cbn [flat_map]; rewrite IH; [reflexivity|].
+    unfold is_head in E. unfold sent_of. destruct (fin_of t) as [[| |]|]; try discriminate. reflexivity.
+  Qed.
+
+  Lemma head_sent_final t m : tinv t -> fin_of t = Some (FSent m) -> final_of (key t) = [m] /\ calls_of (key t) = tcalls t.
+  Proof.
+    intros Hi Hf. unfold tinv in Hi. unfold fin_of in Hf. unfold Dispatch.final_of, Dispatch.calls_of, key. cbn [fst snd].
+    fold (whole t). destruct (tstage t) as [| | |f|f]; try discriminate; inversion Hf; subst f; rewrite Hi; split; reflexivity.
+  Qed.
+
+  Definition has_sent (t : task) : bool := match sent_of t with [] => false | _ => true end.
+
+  Lemma filter_partition_perm {A} (f : A -> bool) l : Permutation (filter f l ++ filter (fun x => negb (f x)) l) l.
+  Proof.
+    induction l as [|x l IH]; cbn [filter]; [apply Permutation_refl|].
+    destruct (f x); cbn [negb app].
+    - apply perm_skip. exact IH.
+    - eapply Permutation_trans; [apply Permutation_sym; apply Permutation_middle|]. apply perm_skip. exact IH.
+  Qed.
+
+  (* C02 "never invented", on the protocol state: the report is a permutation of the statuses handed over by distinct
+     finished invocations, each the final status of the sequential traversal of its own pipeline *)
+  Theorem status_sound roots c0 s : roots_ok roots -> reach roots c0 s ->
+    Permutation (collected s) (sent_msgs (tasks s)) /\
+    forall t m, In t (tasks s) -> fin_of t = Some (FSent m) -> snd (traverse (tpipe t) 0%N (tall t) e0) = Some m.
+  Proof.
+    intros Hr H. destruct (full_inv_reach _ _ _ Hr H) as [_ I2 [I3 _] _]. split; [exact I3|].
+    intros t m Hin Hf. specialize (I2 t Hin). unfold tinv in I2. unfold fin_of in Hf. fold (whole t).
+    destruct (tstage t) as [| | |f|f]; try discriminate; inversion Hf; subst f; rewrite I2; reflexivity.
+  Qed.
+
+  (* C02 "never invented", declaratively: in every reachable state (any schedule, any cancel point) the registered
+     pipelines split into [reported] and [others] such that what the collector holds is exactly one final status per
+     reported pipeline — the status its sequential traversal ends with.  No entry without a pipeline, no pipeline twice. *)
+  Theorem status_never_invented roots c0 s : roots_ok roots -> reach roots c0 s ->
+    exists reported others, Permutation (reported ++ others) roots /\
+                            Permutation (collected s) (flat_map final_of reported).
+  Proof.
+    intros Hr H. destruct (full_inv_reach _ _ _ Hr H) as [_ I2 [I3 _] [Hp _ _ _]].
+    rewrite hkeys_map in Hp. rewrite sent_msgs_heads in I3.
+    assert (Hh : forall t, In t (heads (tasks s)) -> tinv t).
+    { intros t Hin. apply I2. unfold heads in Hin. apply filter_In in Hin. tauto. }
+    exists (map key (filter has_sent (heads (tasks s)))),
+           (map key (filter (fun t => negb (has_sent t)) (heads (tasks s))) ++ roots_of (rng s) ++ skipped s).
+    split.
+    - eapply Permutation_trans; [|exact Hp]. rewrite app_assoc. apply Permutation_app_tail.
+      rewrite <- map_app. apply Permutation_map. apply filter_partition_perm.
+    - eapply Permutation_trans; [exact I3|]. clear I3 Hp.
+      induction (heads (tasks s)) as [|t l IH]; [apply Permutation_refl|].
+      cbn [flat_map filter]. unfold has_sent at 1.
+      destruct (sent_of t) as [|m ms] eqn:Es.
+      + cbn [app]. apply IH. intros t0 Hin. apply Hh. right. exact Hin.
+      + unfold sent_of in Es. destruct (fin_of t) as [[m'| |]|] eqn:Ef; try discriminate. inversion Es; subst m' ms.
+        destruct (head_sent_final t m (Hh t (or_introl eq_refl)) Ef) as [Hfin _].
+        cbn [map flat_map]. rewrite Hfin. apply Permutation_app_head. apply IH. intros t0 Hin. apply Hh. right. exact Hin.
+  Qed.
+
+  Lemma terminal_heads roots s : full_inv roots s -> terminal s -> ctx s = false ->
+    Permutation (map key (heads (tasks s))) roots /\
+    forall t, In t (heads (tasks s)) -> exists m, fin_of t = Some (FSent m) /\ sent_of t = [m].
+  Proof.
+    intros [I1 I2 _ [Hp _ Hlv _]] [_ Hrng] Hctx. rewrite hkeys_map in Hp. destruct (Hlv Hctx) as [Hsk Hab].
+    rewrite Hrng, Hsk in Hp. cbn in Hp. rewrite app_nil_r in Hp. split; [exact Hp|].
+    intros t Hin. unfold heads in Hin. apply filter_In in Hin as [Hin Hh].
+    pose proof (count_zero _ _ (inv_closed _ I1 Hrng) t Hin) as Hl. specialize (Hab t Hin).
+    unfold live in Hl. unfold is_head in Hh. unfold sent_of. unfold fin_of in *.
+    destruct (tstage t) as [| | |f|[m| |]]; try discriminate; try congruence. exists m. split; reflexivity.
+  Qed.
+
+  (* C02 "exactly one entry per registered pipeline" when the context is never cancelled *)
+  Theorem status_complete_uncancelled roots s :
+    roots_ok roots -> reach roots false s -> terminal s -> ctx s = false ->
+    Permutation (collected s) (flat_map final_of roots).
+  Proof.
+    intros Hr H Ht Hctx. pose proof (full_inv_reach _ _ _ Hr H) as Hfi.
+    destruct (terminal_heads _ _ Hfi Ht Hctx) as [Hp Hall]. destruct Hfi as [_ I2 [I3 _] _].
+    rewrite sent_msgs_heads in I3. eapply Permutation_trans; [exact I3|].
+    eapply Permutation_trans; [|apply Permutation_flat_map; exact Hp]. rewrite flat_map_map.
+    assert (Hh : forall t, In t (heads (tasks s)) -> sent_of t = final_of (key t)).
+    { intros t Hin. destruct (Hall t Hin) as [m [Hf Hs]]. rewrite Hs.
+      assert (Hti : tinv t) by (apply I2; unfold heads in Hin; apply filter_In in Hin; tauto).
+      destruct (head_sent_final t m Hti Hf) as [Hfin _]. rewrite Hfin. reflexivity. }
+    clear - Hh. induction (heads (tasks s)) as [|t l IH]; [apply Permutation_refl|].
+    cbn [flat_map]. rewrite (Hh t (or_introl eq_refl)). apply Permutation_app_head. apply IH. intros t0 Hin. apply Hh. right. exact Hin.
+  Qed.
+
+  Lemma final_of_length r : snd r <> [] -> length (final_of r) = 1.
+  Proof. intros Hne. unfold Dispatch.final_of. destruct (traverse_some (fst r) 0%N (snd r) e0 Hne) as [m Hm]. rewrite Hm. reflexivity. Qed.
+
+  Lemma length_msgs acc : length (completes acc) + length (warnings acc) = length acc.
+  Proof. unfold completes, warnings. induction acc as [|[e|n sk] acc IH]; cbn [flat_map app length] in *; lia. Qed.
+
+  (* completes + warnings = pipelines *)
+  Corollary status_count_uncancelled roots s :
+    roots_ok roots -> reach roots false s -> terminal s -> ctx s = false ->
+    length (completes (collected s)) + length (warnings (collected s)) = length roots.
+  Proof.
+    intros Hr H Ht Hctx. rewrite length_msgs. rewrite (Permutation_length (status_complete_uncancelled _ _ Hr H Ht Hctx)).
+    clear - Hr. induction roots as [|r l IH]; [reflexivity|]. cbn [flat_map]. rewrite app_length.
+    rewrite final_of_length; [|apply Hr; left; reflexivity]. rewrite IH; [reflexivity|]. intros x Hx. apply Hr. right. exact Hx.
+  Qed.
+
+  (* under cancellation entries may be missing, never more than pipelines *)
+  Corollary status_count_bound roots c0 s : roots_ok roots -> reach roots c0 s -> length (collected s) <= length roots.
+  Proof.
+    intros Hr H. destruct (status_never_invented _ _ _ Hr H) as [rep [oth [Hp Hc]]].
+    rewrite (Permutation_length Hc). rewrite <- (Permutation_length Hp), app_length.
+    assert (Hok : forall r, In r rep -> snd r <> []).
+    { intros r Hin. apply Hr. eapply Permutation_in; [exact Hp|]. apply in_or_app. left. exact Hin. }
+    clear - Hok. induction rep as [|r l IH]; [cbn; lia|]. cbn [flat_map length]. rewrite app_length.
+    rewrite final_of_length; [|apply Hok; left; reflexivity]. specialize (IH (fun x Hx => Hok x (or_intror Hx))). cbn. lia.
+  Qed.
+
+  (* ================= C01: what is called ================= *)
+  (* every invocation's call log is a prefix of the sequential traversal of its pipeline, in any state, cancelled or not;
+     once a status has been produced it is the whole traversal *)
+  Theorem calls_are_traversal roots c0 s t : roots_ok roots -> reach roots c0 s -> In t (tasks s) ->
+    exists rest, calls_of (key t) = tcalls t ++ rest /\
+                 (forall m, tstage t = SSend m \/ fin_of t = Some (FSent m) -> rest = []).
+  Proof.
+    intros Hr H Hin. destruct (full_inv_reach _ _ _ Hr H) as [_ I2 _ _]. specialize (I2 t Hin).
+    unfold tinv in I2. unfold Dispatch.calls_of, key. cbn [fst snd]. fold (whole t). unfold fin_of.
+    destruct (tstage t) as [| |m|[m| |]|[m| |]].
+    - rewrite I2. eexists. split; [reflexivity|]. intros m [Hx|Hx]; discriminate.
+    - destruct I2 as [n [rest [cs [Hn [Hc Hw]]]]]. rewrite Hw. cbn [fst]. unfold here. rewrite Hn.
+      destruct (traverse_first (tpipe t) (tpos t) n rest (tev t)) as [cs' Hcs]. rewrite Hcs, Hc.
+      exists cs'. split; [rewrite <- app_assoc; reflexivity|]. intros m [Hx|Hx]; discriminate.
+    - rewrite I2. exists []. rewrite app_nil_r. auto.
+    - rewrite I2. exists []. rewrite app_nil_r. auto.
+    - destruct I2 as [m I2]. rewrite I2. exists []. rewrite app_nil_r. auto.
+    - destruct I2 as [rest I2]. rewrite I2. exists rest. split; [reflexivity|]. intros m [Hx|Hx]; discriminate.
+    - rewrite I2. exists []. rewrite app_nil_r. auto.
+    - destruct I2 as [m I2]. rewrite I2. exists []. rewrite app_nil_r. auto.
+    - destruct I2 as [rest I2]. rewrite I2. exists rest. split; [reflexivity|]. intros m [Hx|Hx]; discriminate.
+  Qed.
+
+  (* with or without cancellation: the Process calls made so far are, up to interleaving, one prefix of the sequential
+     traversal per started pipeline; the started pipelines are a sub-multiset of the registered ones (the rest was not yet
+     started, or skipped by the Range loop, which only happens once the context is done) *)
+  Theorem call_log_sound roots c0 s : roots_ok roots -> reach roots c0 s ->
+    exists started : list (root * list call),
+      Permutation (clog s) (flat_map snd started) /\
+      Permutation (map fst started ++ roots_of (rng s) ++ skipped s) roots /\
+      (forall r cs, In (r, cs) started -> exists rest, calls_of r = cs ++ rest) /\
+      (ctx s = false -> skipped s = []).
+  Proof.
+    intros Hr H. pose proof (full_inv_reach _ _ _ Hr H) as [_ I2 _ [Hp _ Hlv Hlog]].
+    exists (map (fun t => (key t, tcalls t)) (heads (tasks s))). split; [|split; [|split]].
+    - unfold hcalls, fm in Hlog. rewrite flat_map_map. cbn [snd]. exact Hlog.
+    - rewrite map_map. cbn [fst]. rewrite hkeys_map in Hp. exact Hp.
+    - intros r cs Hin. apply in_map_iff in Hin as [t [Heq Hin]]. inversion Heq; subst r cs.
+      unfold heads in Hin. apply filter_In in Hin as [Hin _].
+      destruct (calls_are_traversal roots c0 s t Hr H Hin) as [rest [Hc _]]. eauto.
+    - intros Hc. apply Hlv. exact Hc.
+  Qed.
+
+  (* C01: with an uncancelled context, at the end every registered pipeline has been traversed exactly once and nothing
+     else has been called *)
+  Theorem send_traverses_exactly roots s :
+    roots_ok roots -> reach roots false s -> terminal s -> ctx s = false ->
+    Permutation (clog s) (flat_map calls_of roots).
+  Proof.
+    intros Hr H Ht Hctx. pose proof (full_inv_reach _ _ _ Hr H) as Hfi.
+    destruct (terminal_heads _ _ Hfi Ht Hctx) as [Hp Hall]. destruct Hfi as [_ I2 _ [_ _ _ Hlog]].
+    eapply Permutation_trans; [exact Hlog|]. unfold hcalls, fm.
+    eapply Permutation_trans; [|apply Permutation_flat_map; exact Hp]. rewrite flat_map_map.
+    assert (Hh : forall t, In t (heads (tasks s)) -> tcalls t = calls_of (key t)).
+    { intros t Hin. destruct (Hall t Hin) as [m [Hf _]].
+      assert (Hti : tinv t) by (apply I2; unfold heads in Hin; apply filter_In in Hin; tauto).
+      destruct (head_sent_final t m Hti Hf) as [_ Hc]. rewrite Hc. reflexivity. }
+    clear - Hh. induction (heads (tasks s)) as [|t l IH]; [apply Permutation_refl|].
+    cbn [flat_map]. rewrite (Hh t (or_introl eq_refl)). apply Permutation_app_head. apply IH. intros t0 Hin. apply Hh. right. exact Hin.
+  Qed.
+
+  (* a Send whose context is done before it starts may or may not start pipelines, but a Send whose context stays live
+     skips none: every pipeline left unstarted at wg.Wait was skipped after a cancellation *)
+  Theorem nothing_skipped_while_live roots s : roots_ok roots -> reach roots false s -> ctx s = false -> skipped s = [].
+  Proof. intros Hr H Hc. destruct (full_inv_reach _ _ _ Hr H) as [_ _ _ [_ _ Hlv _]]. apply Hlv. exact Hc. Qed.
 End Proofs.
+
+(* ================= Status.getError ================= *)
+Theorem get_error_iff c thr thrS acc :
+  get_error c thr thrS acc <> None <->
+  (Z.of_nat (length (completes acc)) < thr \/ Z.of_nat (length (complete_sinks acc)) < thrS)%Z.
+Proof.
+  unfold get_error.
+  destruct (Z.ltb_spec (Z.of_nat (length (completes acc))) thr) as [H1|H1].
+  - split; [intros _; left; exact H1|discriminate].
+  - destruct (Z.ltb_spec (Z.of_nat (length (complete_sinks acc))) thrS) as [H2|H2].
+    + split; [intros _; right; exact H2|discriminate].
+    + split; [congruence|]. intros [H|H]; lia.
+Qed.
+
+(* the returned error carries the context's error exactly when the context was done *)
+Theorem get_error_wraps_ctx c thr thrS acc k c' : get_error c thr thrS acc = Some (k, c') -> c' = c.
+Proof.
+  unfold get_error. destruct (Z.ltb _ thr); [intros H; inversion H; reflexivity|].
+  destruct (Z.ltb _ thrS); [intros H; inversion H; reflexivity|discriminate].
+Qed.
+
+(* complete-sinks is the sub-list of the complete ids whose node is a sink *)
+Theorem complete_sinks_spec acc :
+  complete_sinks acc = completes (filter (fun m => match m with MComplete _ true => true | _ => false end) acc).
+Proof.
+  unfold complete_sinks, completes. induction acc as [|[e|n [|]] acc IH]; cbn [flat_map filter app]; rewrite ?IH; reflexivity.
+Qed.
+
+(* zero thresholds (the default of a new graph) never produce an error *)
+Theorem get_error_default c acc : get_error c 0 0 acc = None.
+Proof. unfold get_error. destruct (Z.ltb_spec (Z.of_nat (length (completes acc))) 0); [lia|].
+       destruct (Z.ltb_spec (Z.of_nat (length (complete_sinks acc))) 0); [lia|reflexivity]. Qed.
+
+(* ================= thresholds (registry model Broker.v) ================= *)
+Section Thresholds.
+  Variable cf : N -> bool.
+  Notation bstep := (Broker.step cf).
+
+  Lemma memN_add_graph ety g : memN ety (add_graph ety g) = true.
+  Proof. unfold add_graph. destruct (memN ety g) eqn:E; [exact E|]. cbn. rewrite N.eqb_refl. reflexivity. Qed.
+
+  (* a non-negative threshold is accepted and read back *)
+  Theorem threshold_set_get b ety v : ety <> 0%N -> (0 <= v)%Z ->
+    snd (fst (bstep b (SetThr ety v))) = ROk /\ get_thr (fst (fst (bstep b (SetThr ety v)))) ety = (v, true) /\
+    get_thr_sinks (fst (fst (bstep b (SetThr ety v)))) ety = (snd (thr_of b ety), true).
+  Proof.
+    intros Hne Hv. cbn [Broker.step]. apply N.eqb_neq in Hne. rewrite Hne. destruct (Z.ltb_spec v 0) as [?|_]; [lia|].
+    cbn [orb fst snd]. unfold get_thr, get_thr_sinks, thr_of. cbn [b_graphs b_thr]. rewrite memN_add_graph.
+    rewrite (aget_aset_same _ _ _ neqb_spec). auto.
+  Qed.
+  Theorem threshold_sinks_set_get b ety v : ety <> 0%N -> (0 <= v)%Z ->
+    snd (fst (bstep b (SetThrSinks ety v))) = ROk /\ get_thr_sinks (fst (fst (bstep b (SetThrSinks ety v)))) ety = (v, true) /\
+    get_thr (fst (fst (bstep b (SetThrSinks ety v)))) ety = (fst (thr_of b ety), true).
+  Proof.
+    intros Hne Hv. cbn [Broker.step]. apply N.eqb_neq in Hne. rewrite Hne. destruct (Z.ltb_spec v 0) as [?|_]; [lia|].
+    cbn [orb fst snd]. unfold get_thr, get_thr_sinks, thr_of. cbn [b_graphs b_thr]. rewrite memN_add_graph.
+    rewrite (aget_aset_same _ _ _ neqb_spec). auto.
+  Qed.
+
+  (* negative values are rejected and change nothing *)
+  Theorem threshold_rejects_negative b ety v : (v < 0)%Z ->
+    bstep b (SetThr ety v) = (b, RInvalid, []) /\ bstep b (SetThrSinks ety v) = (b, RInvalid, []).
+  Proof.
+    intros Hv. cbn [Broker.step]. destruct (Z.ltb_spec v 0) as [_|?]; [|lia]. rewrite orb_true_r. auto.
+  Qed.
+
+  (* setting a threshold of one type touches no other type's thresholds, no pipeline and no node *)
+  Theorem threshold_frame b ety v o : o = SetThr ety v \/ o = SetThrSinks ety v ->
+    b_nodes (fst (fst (bstep b o))) = b_nodes b /\ b_pipes (fst (fst (bstep b o))) = b_pipes b /\
+    forall ety', ety' <> ety -> thr_of (fst (fst (bstep b o))) ety' = thr_of b ety'.
+  Proof.
+    intros [->| ->]; cbn [Broker.step]; destruct (N.eqb ety 0 || Z.ltb v 0); cbn [fst b_nodes b_pipes]; auto;
+      (split; [reflexivity|split; [reflexivity|]]); intros ety' Hne; unfold thr_of; cbn [b_thr];
+      rewrite (aget_aset_other _ _ _ neqb_spec); auto.
+  Qed.
+
+  Definition sets_thr_of (ety : N) (o : op) : bool :=
+    match o with SetThr e _ | SetThrSinks e _ => N.eqb e ety | _ => false end.
+
+  (* no other operation changes a type's thresholds *)
+  Lemma threshold_kept b o ety : sets_thr_of ety o = false -> thr_of (fst (fst (bstep b o))) ety = thr_of b ety.
+  Proof.
+    intros Hs. destruct o as [id obj ty pa|id|pid e ids pa|e pid|e pid|e v|e v]; cbn [Broker.step sets_thr_of] in *.
+    - destruct (N.eqb id 0); [reflexivity|]. destruct (pol_of pa); [|reflexivity].
+      destruct (aget N.eqb id (b_nodes b)) as [u|]; [destruct (nu_pol u)|]; reflexivity.
+    - destruct (N.eqb id 0); [reflexivity|]. destruct (aget N.eqb id (b_nodes b)) as [u|]; [|reflexivity].
+      destruct (Nat.ltb 0 (nu_rc u)); reflexivity.
+    - destruct (N.eqb pid 0 || N.eqb e 0 || match ids with [] => true | _ => false end || memN 0 ids); [reflexivity|].
+      destruct (pol_of pa); [|reflexivity].
+      destruct (match aget pkeqb (e, pid) (b_pipes b) with Some old => match p_pol old with PDeny => true | PAllow => false end | None => false end); [reflexivity|].
+      destruct (resolve ids (b_nodes b)); [|reflexivity]. destruct (negb (valid_shape l)); reflexivity.
+    - destruct (N.eqb e 0 || N.eqb pid 0); [reflexivity|]. destruct (negb (memN e (b_graphs b))); [reflexivity|].
+      destruct (aget pkeqb (e, pid) (b_pipes b)); reflexivity.
+    - destruct (N.eqb e 0 || N.eqb pid 0); [reflexivity|]. destruct (negb (memN e (b_graphs b))); [reflexivity|].
+      destruct (aget pkeqb (e, pid) (b_pipes b)) as [old|]; [|reflexivity].
+      destruct (unregister_all (distinct (p_ids old)) (b_nodes b) [] true) as [[nodes' closed] ok]. reflexivity.
+    - destruct (N.eqb e 0 || Z.ltb v 0); [reflexivity|]. unfold thr_of. cbn [fst b_thr].
+      rewrite (aget_aset_other _ _ _ neqb_spec); auto. intros ->. rewrite N.eqb_refl in Hs. discriminate.
+    - destruct (N.eqb e 0 || Z.ltb v 0); [reflexivity|]. unfold thr_of. cbn [fst b_thr].
+      rewrite (aget_aset_other _ _ _ neqb_spec); auto. intros ->. rewrite N.eqb_refl in Hs. discriminate.
+  Qed.
+
+  Lemma thr_run_app ops2 : forall b ety, forallb (fun o => negb (sets_thr_of ety o)) ops2 = true ->
+    thr_of (fold_left (fun b o => fst (fst (bstep b o))) ops2 b) ety = thr_of b ety.
+  Proof.
+    induction ops2 as [|o ops IH]; intros b ety H; cbn [fold_left forallb] in *; [reflexivity|].
+    apply andb_true_iff in H as [H1 H2]. rewrite IH; [|exact H2]. apply threshold_kept. apply negb_true_iff. exact H1.
+  Qed.
+
+  (* read back as last set, over all histories: whatever happened before, and whatever other operations follow *)
+  Theorem threshold_last_set ops1 ops2 ety v : ety <> 0%N -> (0 <= v)%Z ->
+    forallb (fun o => negb (sets_thr_of ety o)) ops2 = true ->
+    get_thr (run cf (ops1 ++ SetThr ety v :: ops2)) ety = (v, true).
+  Proof.
+    intros Hne Hv Hrest. unfold run. rewrite fold_left_app. cbn [fold_left].
+    set (b1 := fold_left (fun b o => fst (fst (bstep b o))) ops1 b0).
+    destruct (threshold_set_get b1 ety v Hne Hv) as [_ [Hg _]].
+    set (b2 := fst (fst (bstep b1 (SetThr ety v)))) in *.
+    unfold get_thr in *.
+    assert (Hmem : forall ops b, memN ety (b_graphs b) = true ->
+                   memN ety (b_graphs (fold_left (fun b o => fst (fst (bstep b o))) ops b)) = true).
+    { induction ops as [|o ops IH]; intros b Hb; cbn [fold_left]; [exact Hb|]. apply IH.
+      destruct o as [id obj ty pa|id|pid e ids pa|e pid|e pid|e v'|e v']; cbn [Broker.step].
+      - destruct (N.eqb id 0); [exact Hb|]. destruct (pol_of pa); [|exact Hb].
+        destruct (aget N.eqb id (b_nodes b)) as [u|]; [destruct (nu_pol u)|]; exact Hb.
+      - destruct (N.eqb id 0); [exact Hb|]. destruct (aget N.eqb id (b_nodes b)) as [u|]; [|exact Hb].
+        destruct (Nat.ltb 0 (nu_rc u)); exact Hb.
+      - assert (Hadd : memN ety (add_graph e (b_graphs b)) = true).
+        { unfold add_graph. destruct (memN e (b_graphs b)); [exact Hb|]. cbn. rewrite Hb. apply orb_true_r. }
+        destruct (N.eqb pid 0 || N.eqb e 0 || match ids with [] => true | _ => false end || memN 0 ids); [exact Hb|].
+        destruct (pol_of pa); [|exact Hb].
+        destruct (match aget pkeqb (e, pid) (b_pipes b) with Some old => match p_pol old with PDeny => true | PAllow => false end | None => false end); [exact Hadd|].
+        destruct (resolve ids (b_nodes b)); [|exact Hadd]. destruct (negb (valid_shape l)); exact Hadd.
+      - destruct (N.eqb e 0 || N.eqb pid 0); [exact Hb|]. destruct (negb (memN e (b_graphs b))); [exact Hb|].
+        destruct (aget pkeqb (e, pid) (b_pipes b)); exact Hb.
+      - destruct (N.eqb e 0 || N.eqb pid 0); [exact Hb|]. destruct (negb (memN e (b_graphs b))); [exact Hb|].
+        destruct (aget pkeqb (e, pid) (b_pipes b)) as [old|]; [|exact Hb].
+        destruct (unregister_all (distinct (p_ids old)) (b_nodes b) [] true) as [[nodes' closed] ok]. exact Hb.
+      - destruct (N.eqb e 0 || Z.ltb v' 0); [exact Hb|]. cbn [fst b_graphs]. unfold add_graph.
+        destruct (memN e (b_graphs b)); [exact Hb|]. cbn. rewrite Hb. apply orb_true_r.
+      - destruct (N.eqb e 0 || Z.ltb v' 0); [exact Hb|]. cbn [fst b_graphs]. unfold add_graph.
+        destruct (memN e (b_graphs b)); [exact Hb|]. cbn. rewrite Hb. apply orb_true_r. }
+    destruct (memN ety (b_graphs b2)) eqn:Eg; [|inversion Hg].
+    rewrite (Hmem ops2 b2 Eg). rewrite (thr_run_app ops2 b2 ety Hrest). exact Hg.
+  Qed.
+End Thresholds.
